@@ -462,6 +462,24 @@ def _yaml(desc, tandems=False):
     return "\n".join(L) + "\n"
 
 
+def plant_edge_allele(desc, yaml_path, which, name="82.001", salt=0):
+    """add an allele defined by ONE functional substitution on the last (which='last') or first (which='first') base of the RefSeq
+    mapping - the outermost aligned genome base on one strand or the other - and rewrite the database file; returns the allele name
+    or None when another variant of the pool sits within 3 bases of that border"""
+    N = len(desc["refseq"])
+    i = N - 1 if which == "last" else 0
+    if any(abs(v[0] - i) < 4 for v in desc["variants"]):
+        return None
+    ref = desc["refseq"][i]
+    sop = f"{ref}>{[c for c in 'ACGT' if c != ref][salt % 3]}"
+    desc["alleles"][name] = {"kind": "normal", "brk": None, "variants": [[i, sop, "-", "functional"]], "label": None,
+                             "major": name.split(".")[0], "functional": [[i, sop]]}
+    for b in desc["builds"].values():
+        b["alleles"][name] = [list(_to_genome(b, N, i, sop))]
+    open(yaml_path, "w").write(_yaml(desc))
+    return name
+
+
 def write_db(dir, rng, **opts):
     text, desc = generate(rng, **opts)
     path = os.path.join(dir, desc["name"].lower() + ".yml")
